@@ -11,7 +11,7 @@ import ast
 import itertools
 
 from ..core import AnalysisError, assigned_targets, call_name, calls_in, const_str, dotted, src
-from ..tables import arm_value, if_chain, py_eval, sql_eval
+from ..tables import inline_single_assignments, arm_value, if_chain, py_eval, sql_eval
 
 EXPLANATION = (
     "C33.1 abstract job row = (end_time, call_hash, cached, result Value.type) in {NULL,set}x{NULL,set}x{F,T}x{NULL,Error,other}; "
@@ -86,7 +86,7 @@ def run(ctx):
             continue
         if not (isinstance(test, ast.Compare) and src(test.left) == sparam and isinstance(test.ops[0], ast.Eq)):
             raise AnalysisError(f"_job_status_term: unexpected test {src(test)}", "CallGraphQuery._job_status_term")
-        terms[const_str(test.comparators[0])] = arm_value(body)
+        terms[const_str(test.comparators[0])] = inline_single_assignments(term_fn, arm_value(body))
     missing = [s for s in JOB_STATUSES if s not in terms]
     if missing:
         raise AnalysisError(f"_job_status_term has no arm for {missing}", "CallGraphQuery._job_status_term")
